@@ -1,4 +1,5 @@
 import IsoMdl.Model.Cose
+import IsoMdl.Model.ResponseFacts
 namespace IsoMdl.Driver
 open IsoMdl IsoMdl.Cose
 
@@ -38,6 +39,16 @@ def coseOp : List String → Option String
       let p ← bytesOfHex prot
       let prim : Bytes → Bytes → Option Bool := fun _ _ => if parses == "t" then some (accepts == "t") else none
       pure (showVerdict (verifySign1 v prim ⟨p, a, [], false⟩ al d ad))
+  -- the same with the model's OWN primitive: ECDSA P-256 over the executable curve arithmetic (no oracle from the harness);
+  -- a signature "parses" when it is 64 bytes with r and s in [1, n-1] (`p256::ecdsa::Signature::from_slice`)
+  | ["cose.verifySign1x", valg, alg, att, det, aad, prot, sig, key] => do
+      let v ← valg.toInt?; let al ← parseProtAlg alg; let a ← optHex att; let d ← optHex det; let ad ← optHex aad
+      let p ← bytesOfHex prot; let sg ← bytesOfHex sig; let kb ← bytesOfHex key
+      let prim : Bytes → Bytes → Option Bool := fun m s =>
+        let r := fromBe (s.take 32); let ss := fromBe (s.drop 32)
+        if s.length != 64 || r == 0 || r ≥ P256.n || ss == 0 || ss ≥ P256.n then none
+        else some (ResponseFacts.ecdsaVerify (fromBe (kb.take 32)) (fromBe (kb.drop 32)) m s)
+      pure (showVerdict (verifySign1 v prim ⟨p, a, sg, false⟩ al d ad))
   | ["cose.verifyMac0", key, alg, att, det, aad, prot, tag] => do
       let k ← bytesOfHex key; let al ← parseProtAlg alg; let a ← optHex att; let d ← optHex det; let ad ← optHex aad
       let p ← bytesOfHex prot; let t ← bytesOfHex tag
